@@ -283,6 +283,7 @@ fn v_of_sexp(s: &Sexp) -> Result<V, String> {
     let (tag, args) = crate::head(s)?;
     Ok(match (tag, args.len()) {
         ("null", 0) => V::Null,
+        ("nz", 0) => V::Float(-0.0),
         ("b", 1) => V::Bool(crate::boolean(&args[0])?),
         ("i", 1) => {
             let a = crate::atom(&args[0])?;
